@@ -131,6 +131,21 @@ CHECKS["C12"] = (
     "DESIGN.md section 3, C12",
 )
 
+CHECKS["C14"] = (
+    "CPX + ENUM",
+    "model_checking",
+    "bounded exhaustive enumeration of grammars x nonterminals x targets, with deviation-bounded exploration of the helper's random answers; results recomputed independently",
+    "(a) create_fixed_length_tree for every nonterminal and target length 0..6 of several hundred generated grammars and the catalogue, "
+    "under every answer sequence of its random.choice within a deviation bound: a returned tree must be closed, grammar-valid, rooted in the "
+    "nonterminal and have exactly the requested length. (b) the solver's numeric model-value path on five numeral grammars (zero padding, "
+    "optional/mandatory signs) for =, >=, <= against positive/negative targets with optimized queries on and off: the integer value of every "
+    "solution is recomputed. (c) count() on every closed tree and open prefix of five grammars for every needle and k in 0..4, literal and "
+    "variable: Boolean answers on closed trees must equal the recount, proposed replacements must be valid, contain exactly k needles and no "
+    "open leaf from which the needle is still reachable.",
+    "Not producing a result (None, 'not ready', StopIteration, an exception from solve()) is never judged here; caps are counted.",
+    "DESIGN.md section 3, C14",
+)
+
 NOT_YET = "check not built yet in this round (planned in DESIGN.md section 3)"
 
 
